@@ -32,6 +32,10 @@ What is mirrored, statement by statement:
 * `ProcessForwardMsg` at the selected instance: wrong service type → log and return
   (no completion: the requester's entry expires after 30 s); else `tryCallCol` with a
   completion that wraps the result in `msgs.Response{SessionId, ClientReqId, …}`.
+* `SessionsImpl.ProcessMessage`: the envelope's `SessionId` is read inside the task posted to the
+  owner, i.e. after the `AddSession` posted by `OnSessionCreate` [fix d1d6afb, `Fixes.d20`; before it
+  a message read while the owner had not yet run `AddSession` carried `SessionId` 0, and a forwarded
+  request's reply then failed the "missmatch res" check and was dropped].
 * request expiry: an entry older than 30 s is completed with `ErrTimeout` by the 1 s
   scan, i.e. in (30 s, 31 s]; a reply arriving later finds no entry and is dropped.
 
@@ -74,10 +78,13 @@ structure ClientMsg where
   pay : Payload
   deriving DecidableEq, Repr
 
-/-- the front session: connection id (`_NetId`) and the routing key stored in it -/
+/-- the front session: connection id (`_NetId`), the routing key stored in it, and whether the owning
+service had already run `AddSession` (which assigns the id) when the session's reader goroutine read
+the message — `false` for a message pipelined right behind the handshake while the owner is busy -/
 structure Sess where
   sid : Nat
   key : Option String
+  added : Bool
   deriving DecidableEq, Repr
 
 /-- a directory entry: the instance's service type; `alive` = an actor processes what is sent to its PID -/
@@ -96,12 +103,22 @@ structure Cfg where
   /-- `route.GetRouteService().Route(type, frontSession)`: an instance name, a sentinel, or "" -/
   route : String → Sess → String
 
-/-- which of the two repairs are present (`serve` = both) -/
+/-- which of the repairs are present (`serve` = all) -/
 structure Fixes where
   d4a : Bool
   d4b : Bool
+  /-- d1d6afb: `SessionsImpl.ProcessMessage` reads `session.GetId()` inside the posted task (after the
+  posted `AddSession`), not on the reader goroutine -/
+  d20 : Bool
 
-def fixed : Fixes := ⟨true, true⟩
+def fixed : Fixes := ⟨true, true, true⟩
+
+/-- the `SessionId` stamped on the envelope: before d1d6afb it was read on the reader goroutine and
+was still 0 when `AddSession` had not run yet -/
+def stamp (fx : Fixes) (s : Sess) : Nat :=
+  if s.added = false ∧ fx.d20 = false then 0 else s.sid
+
+@[simp] theorem stamp_fixed (s : Sess) : stamp fixed s = s.sid := by simp [stamp, fixed]
 
 /-! ## results and effects -/
 
@@ -225,7 +242,7 @@ def forward (fx : Fixes) (c : Cfg) (s : Sess) (msg : ClientMsg) (t : String) : L
   match (if r = "" then none else c.dir r) with           -- app.RoutePID
   | none => if fx.d4a = true ∧ msg.id ≠ 0 then [.respond 0 s.sid msg.id .error] else []
   | some inst =>
-    let f : FwdMsg := ⟨s.sid, msg.id, msg.route, msg.pay⟩
+    let f : FwdMsg := ⟨stamp fx s, msg.id, msg.route, msg.pay⟩
     if inst.alive = false then
       (if msg.id = 0 then [] else relay s msg none)
     else
